@@ -235,3 +235,87 @@ def unit_angular(prop="C20"):
         return u
     unit.__name__ = "angular"
     return unit
+
+
+# ------------------------------------------------------------------------------------------
+# _gauss_quant_odeh_evans (what gauss_quant is when SciPy is absent, as here): the rational approximation of Odeh & Evans (1974) as printed
+# in Brophy (1985), over the reals with ln and sqrt uninterpreted:
+#     r = min(p, 1 - p) as the code selects it (1 - p above the median, p otherwise);  z = 10 below r = 1e-20 (saturation), otherwise
+#     z = y - ((((a4 y + a3) y + a2) y + a1) y + a0) / ((((b4 y + b3) y + b2) y + b1) y + b0),  y = sqrt(-2 ln r), with the published coefficients;
+#     the sign is negative below the median;  the result is  z * std + mu  - affine in mu and std by construction.
+# Well-definedness for every 0 < p < 1: the logarithm's argument is positive, the square root's non-negative (needs ln r <= 0 for r <= 1/2: A-MATH),
+# the denominator non-zero. Monotonicity in p and the 1e-6 accuracy are numerical statements about this rational function: bounded stand-in.
+# ------------------------------------------------------------------------------------------
+OE_NUM = ("4.53642210148e-5", "0.0204231210245", "0.342242088547", "1", "0.322232431088")
+OE_DEN = ("0.0038560700634", "0.10353775285", "0.531103462366", "0.588581570495", "0.099348462606")
+
+
+def contract_gauss_quant():
+    LN, SQRT = api.LN, api.SQRT
+
+    def rv(s):
+        from fractions import Fraction
+        return z3.RealVal(str(Fraction(s)))
+
+    def zspec(ev):
+        p = ev.ex.ctx["p"]
+        r = z3.If(p > z3.RealVal("1/2"), 1 - p, p)
+        y = SQRT(-2 * LN(r))
+        num = (((rv(OE_NUM[0]) * y + rv(OE_NUM[1])) * y + rv(OE_NUM[2])) * y + rv(OE_NUM[3])) * y + rv(OE_NUM[4])
+        den = (((rv(OE_DEN[0]) * y + rv(OE_DEN[1])) * y + rv(OE_DEN[2])) * y + rv(OE_DEN[3])) * y + rv(OE_DEN[4])
+        z = z3.If(r < rv("1e-20"), z3.RealVal(10), y - num / den)
+        return z3.If(p < z3.RealVal("1/2"), -z, z)
+
+    def h_log(ex, st, args, kwargs, node, ev):
+        za = to_real(args[0])
+        ex.oblige(st, za > 0, f"log_of_a_positive_number.L{node.lineno - ex.fx.lineno}", "wd", node.lineno)
+        return LN(za)
+
+    def h_binop(ex, st, op, a, b, n):
+        import ast
+        from fractions import Fraction
+        if isinstance(op, ast.Pow) and b == Fraction(1, 2):
+            za = to_real(a)
+            ex.oblige(st, za >= 0, f"sqrt_of_a_non_negative_number.L{n.lineno - ex.fx.lineno}", "wd", n.lineno)
+            return SQRT(za)
+        return NotImplemented
+
+    class _FInfo:
+        def sym_getattr(self, attr, ev, node):
+            if attr == "eps":
+                from fractions import Fraction
+                return Fraction(1, 2 ** 52)           # numpy.finfo(float).eps, exactly
+            raise Outside(f"finfo attribute .{attr}")
+
+    def h_finfo(ex, st, args, kwargs, node, ev):
+        return _FInfo()
+
+    return Contract(
+        target="util:_gauss_quant_odeh_evans", uses=["A-REAL", "A-PYSEM", "A-MATH"],
+        consts={"ZSPEC": SpecFn(zspec), "float": Opaque("float", "dtype")},
+        handlers={"np.log": h_log, "binop": h_binop, "np.finfo": h_finfo},
+        ensures=[("published_rational_approximation_affine_in_mu_and_std", "result == ZSPEC() * std + mu")],
+    )
+
+
+def unit_gauss_quant(prop="C20"):
+    def unit(tier, known):
+        from contracts.registry import run_contract
+
+        def setup(ex, st):
+            p, mu, std = api.sym("p", "real"), api.sym("mu", "real"), api.sym("std", "real")
+            st.assume(z3.And(p > 0, p < 1))
+            st.env.update(p=p, mu=mu, std=std)
+            x = z3.Real("lx")
+            for ax in api.math_axioms():
+                ex.axioms.append(ax)
+            ex.axioms.append(z3.ForAll([x], z3.Implies(z3.And(x > 0, x <= 1), api.LN(x) <= 0), patterns=[api.LN(x)]))
+            ex.axioms.append(z3.ForAll([x], z3.Implies(x >= 0, api.SQRT(x) >= 0), patterns=[api.SQRT(x)]))
+            ex.ctx = dict(p=p)
+
+        def tc(ob):
+            # the C20 stand-in's three gauss_quant grids (accuracy vs mpmath incl. the tail down to 1e-20, monotonicity, affinity)
+            return [{"check": "gq.accuracy", "seed": 0, "n": 2000}, {"check": "gq.monotone"}, {"check": "gq.affine", "seed": 0, "salt": 0}]
+        return run_contract(prop, ("util", "_gauss_quant_odeh_evans"), contract_gauss_quant(), [("", setup)], name="gauss_quant", to_case=tc, replay_module="rtc.c20")
+    unit.__name__ = "gauss_quant"
+    return unit
